@@ -317,3 +317,6 @@ P("C16", CU, "            dists = np.asarray([2 * radius])", "            dists 
 B("C11", BASE, "        if group_name not in self.base.groups:", "        if group_name not in self.groups:", "R-C11-basestate")
 # F19 (repaired): forward Euler must refuse unequal compartment counts
 B("C01", SV, "    if len(np.unique(ncomp_per_branch)) > 1:\n        # The reshapes below", "    if False:\n        # The reshapes below", "R-C01-refuse")
+# same_expr: hoisted temporaries in the constructors are not a change
+P("C12", CELL, '        self.nodes["global_comp_index"] = np.arange(self.cumsum_ncomp[-1])', '        n_total = self.cumsum_ncomp[-1]\n        self.nodes["global_comp_index"] = np.arange(n_total)')
+B("C12", CELL, '        self.nodes["global_comp_index"] = np.arange(self.cumsum_ncomp[-1])', '        self.nodes["global_comp_index"] = np.arange(1, self.cumsum_ncomp[-1] + 1)', "R-C12-concat")
